@@ -40,13 +40,30 @@ pub struct ThreadCase {
     /// workers are exiting, and only then joins them
     #[serde(default)]
     pub collect_before_join: bool,
+    /// delay points of the stop / resume / safepoint handshake that are active (bit set of the hook's
+    /// `delay_point` ids 0-7), how often an active point fires (every n-th visit) and for how long (us)
+    #[serde(default)]
+    pub delay_mask: u64,
+    #[serde(default)]
+    pub delay_every: u64,
+    #[serde(default)]
+    pub delay_micros: u64,
+    /// the workers' final messages and results carry boxes / vectors (values in flight in a channel and
+    /// unjoined results are not roots on the unchanged tree: listed finding, excluded from the search)
+    #[serde(default)]
+    pub heap_msgs: bool,
+    /// the main thread assigns / defines globals although an updater thread does so too (two threads
+    /// requesting world stops at the same time)
+    #[serde(default)]
+    pub both_stop: bool,
 }
 
 fn program(c: &ThreadCase) -> String {
     let k = c.workers.max(1);
     let tick = c.tick.max(2);
-    // with an updater thread nothing else may stop the world (see below): no heap garbage, so no collection
-    let garbage = match if c.updater > 0 { 3 } else { c.garbage % 4 } {
+    // old cases (both_stop = false): with an updater thread nothing else stops the world - no heap garbage,
+    // so no collection, and the main thread assigns nothing; new cases lift that
+    let garbage = match if c.updater > 0 && !c.both_stop { 3 } else { c.garbage % 4 } {
         0 => "(vector i (box i))",
         1 => "((lambda (a) (lambda () (+ a i))) (box i))",
         2 => "(hash-insert (hash 'a (box i)) 'b (vector i))",
@@ -55,14 +72,18 @@ fn program(c: &ThreadCase) -> String {
     let mut s = String::new();
     // only one thread at a time may request world stops (concurrent requests from two threads deadlock on
     // the unchanged tree, a listed finding): with an updater thread the main thread assigns and defines nothing
-    let main_stops = c.updater == 0;
+    let main_stops = c.updater == 0 || c.both_stop;
+    if c.delay_mask != 0 {
+        s.push_str(&format!("(#%verif-delays {} {} {})\n", c.delay_mask, c.delay_every.max(1), c.delay_micros));
+    }
     s.push_str(if main_stops { "(define g0 0)\n" } else { "(define g0 1000000)\n" });
     s.push_str("(define (mk-tree d seed) (if (= d 0) (box seed) (vector (mk-tree (- d 1) (+ seed 1)) (box seed) (list (mk-tree (- d 1) (* seed 2))))))\n");
     s.push_str("(define (checksum t) (cond ((int? t) t) ((mutable-vector? t) (apply + (map checksum (mutable-vector->list t)))) ((pair? t) (apply + (map checksum t))) ((null? t) 0) (else (checksum (unbox t)))))\n");
     s.push_str(&format!(
-        "(define (worker id iters out in feeds)\n  (let loop ((i 0) (acc 0) (fed 0) (keep (mk-tree 3 id)))\n    (if (= i iters)\n        (begin (channel/send out (list 'done id acc (checksum keep))) (list id acc))\n        (begin\n          {}\n          (when (= 0 (modulo i {})) (channel/send out (list 'tick id i)))\n          (if (and (= 1 (modulo i {})) (< fed feeds))\n              (let ((want (channel/recv in))) (channel/send out (list 'saw id want g0)) (loop (+ i 1) (+ acc (* i id)) (+ fed 1) keep))\n              (loop (+ i 1) (+ acc (* i id)) fed keep))))))\n",
+        "(define (worker id iters out in feeds)\n  (let loop ((i 0) (acc 0) (fed 0) (keep (mk-tree 3 id)))\n    (if (= i iters)\n        (begin (channel/send out (list 'done id acc @DONE@)) @RESULT@)\n        (begin\n          {}\n          (when (= 0 (modulo i {})) (channel/send out (list 'tick id i)))\n          (if (and (= 1 (modulo i {})) (< fed feeds))\n              (let ((want (channel/recv in))) (channel/send out (list 'saw id want g0)) (loop (+ i 1) (+ acc (* i id)) (+ fed 1) keep))\n              (loop (+ i 1) (+ acc (* i id)) fed keep))))))\n",
         garbage, tick, tick
-    ));
+    ).replace("@DONE@", if c.heap_msgs { "(vector (box (checksum keep)))" } else { "(checksum keep)" })
+     .replace("@RESULT@", if c.heap_msgs { "(list id (box acc))" } else { "(list id acc)" }));
     s.push_str("(define g1 0)\n(define (bump n) (if (= n 0) 'bump-done (begin (set! g1 (+ g1 1)) (bump (- n 1)))))\n");
     if c.updater > 0 {
         s.push_str(&format!("(define updater-thread (spawn-native-thread (lambda () (bump {}))))\n", c.updater));
@@ -98,7 +119,7 @@ fn program(c: &ThreadCase) -> String {
     let saw_per = if c.iters >= 2 { ((c.iters - 2) / tick + 1).min(c.feeds) } else { 0 };
     let total_msgs = k * (ticks_per + saw_per + 1);
     s.push_str("(define (drain n acc) (if (= n 0) (reverse acc) (drain (- n 1) (cons (channel/recv (channels-receiver out)) acc))))\n");
-    let collect = if c.collect_before_join && c.updater == 0 { "(#%gc-collect)\n" } else { "" };
+    let collect = if c.collect_before_join && main_stops { "(#%gc-collect)\n" } else { "" };
     match c.join_order % 4 {
         0 => s.push_str(&format!("(define msgs (drain {} '()))\n{}(define results (map thread-join! threads))\n", total_msgs, collect)),
         1 => s.push_str(&format!("(define msgs (drain {} '()))\n(define results (reverse (map thread-join! (reverse threads))))\n", total_msgs)),
@@ -112,6 +133,12 @@ fn program(c: &ThreadCase) -> String {
         s.push_str("(define updater-result (thread-join! updater-thread))\n");
     } else {
         s.push_str("(define updater-result 'none)\n");
+    }
+    if c.heap_msgs {
+        // the values travelled as boxes / vectors: a collection and fresh allocations first, then they are opened
+        s.push_str("(#%gc-collect)\n(define refill (let loop ((i 0) (acc '())) (if (= i 3000) acc (loop (+ i 1) (cons (box (- 0 i)) acc)))))\n");
+        s.push_str("(define results (map (lambda (r) (list (car r) (unbox (cadr r)))) results))\n");
+        s.push_str("(define msgs (map (lambda (m) (if (eq? (car m) 'done) (list 'done (cadr m) (caddr m) (unbox (vector-ref (cadddr m) 0))) m)) msgs))\n");
     }
     s.push_str("(list results msgs (list churn-sum updater-result g1))\n");
     s
@@ -176,8 +203,9 @@ fn int(t: &T) -> Option<i64> {
 pub fn check(ctx: &Ctx, ws: &mut Workers, c: &ThreadCase, counting: bool, tag: &str) -> PropResult {
     let prog = program(c);
     let mut off_ok = false;
-    for cfg in [Config::jit_off(), Config::default_cfg()] {
-        let jit_on = cfg.0.is_empty();
+    let mut stops_seen = 0i64;
+    // the case child runs on 4 cpus (other checks: 2), so that up to four threads really run at once
+    for (jit_on, cfg) in [(false, Config::jit_off().with("SVWORKER_CPUS", "4")), (true, Config::default_cfg().with("SVWORKER_CPUS", "4"))] {
         let shown = format!("config: {}\n{:?}\n{}", cfg.label(), c, prog);
         let mut attempt = 0;
         let r = loop {
@@ -301,6 +329,10 @@ pub fn check(ctx: &Ctx, ws: &mut Workers, c: &ThreadCase, counting: bool, tag: &
                 return bad("updater-or-churn", format!("(sum of the short-lived threads' results, updater result, final g1) = {}, expected {}", got3, want));
             }
         }
+        let overlaps = st.hooks.get("scan_overlaps").copied().unwrap_or(0);
+        if overlaps != 0 {
+            return bad("scan-overlap", format!("{} instructions were dispatched by a thread while another thread was reading its stack or replacing its global table (hook: flag set at the stopper's first use of the thread's published pointer, cleared before it resumes the threads)", overlaps));
+        }
         let stale = st.hooks.get("stale_accesses").copied().unwrap_or(0);
         // (the free-list accounting hook compares a recount with a cached count that other threads
         // update while they allocate: it is only meaningful in single-threaded runs and not used here)
@@ -310,11 +342,20 @@ pub fn check(ctx: &Ctx, ws: &mut Workers, c: &ThreadCase, counting: bool, tag: &
         if !jit_on {
             off_ok = true;
         }
-        if counting && cfg.0.is_empty() {
+        stops_seen = stops_seen.max(st.hooks.get("world_stops").copied().unwrap_or(0));
+        if counting && jit_on {
             ctx.stats.class(&format!("workers:{}", c.workers));
             ctx.stats.class(&format!("join-order:{}", c.join_order % 4));
             ctx.stats.class(if c.period > 0 { "collections:forced" } else { "collections:natural" });
             ctx.stats.class_n("full-collections", st.hooks.get("full_collections").copied().unwrap_or(0) as u64);
+            ctx.stats.class_n("world-stops", st.hooks.get("world_stops").copied().unwrap_or(0) as u64);
+            ctx.stats.class_n("foreign-accesses-to-a-stopped-thread", st.hooks.get("foreign_accesses").copied().unwrap_or(0) as u64);
+            if c.delay_mask != 0 {
+                ctx.stats.class("delay-schedule");
+            }
+            if c.both_stop && c.updater > 0 {
+                ctx.stats.class("two-threads-stop-the-world");
+            }
             ctx.stats.class_n("messages-checked", msgs.len() as u64);
             if c.defines {
                 ctx.stats.class("main-defines-globals-while-workers-run");
@@ -323,7 +364,7 @@ pub fn check(ctx: &Ctx, ws: &mut Workers, c: &ThreadCase, counting: bool, tag: &
     }
     if counting {
         ctx.stats.eval();
-        if c.workers >= 2 && c.iters >= 100 {
+        if c.workers >= 2 && c.iters >= 100 && stops_seen >= 1 {
             ctx.stats.nontrivial(&format!("{:?}", c));
         }
         if ctx.stats.want_sample() {
@@ -346,20 +387,34 @@ fn periods(stress_only: bool) -> Vec<u64> {
 }
 
 pub fn case(stress_only: bool) -> impl Strategy<Value = ThreadCase> {
-    (1u64..=8, prop::sample::select(vec![50u64, 200, 600, 2000]), prop::sample::select(vec![7u64, 50, 120]), 0u64..6, prop::sample::select(periods(stress_only)), 0u8..4, any::<bool>(), 0u8..4, prop::sample::select(vec![0u64, 0, 0, 0, 0, 50, 300]), prop::sample::select(vec![0u64, 0, 10, 40]), any::<bool>())
-        .prop_map(|(workers, iters, tick, feeds, period, join_order, defines, garbage, updater, churn, collect_before_join)| ThreadCase {
+    let base = (1u64..=8, prop::sample::select(vec![50u64, 200, 600, 2000]), prop::sample::select(vec![7u64, 50, 120]), 0u64..6, prop::sample::select(periods(stress_only)), 0u8..4, any::<bool>(), 0u8..4, prop::sample::select(vec![0u64, 0, 0, 0, 50, 300]), prop::sample::select(vec![0u64, 0, 10, 40]), any::<bool>());
+    // delay schedule: none in a third of the cases; otherwise a subset of the 8 delay points, firing at every
+    // 1st / 3rd / 17th / 101st visit for 0 (yield) / 20 / 200 us
+    let delays = (prop::sample::select(vec![0u64, 1, 1]), 1u64..256, prop::sample::select(vec![1u64, 3, 17, 101]), prop::sample::select(vec![0u64, 20, 200]), any::<bool>());
+    (base, delays).prop_map(|((workers, iters, tick, feeds, period, join_order, defines, garbage, updater, churn, collect_before_join), (with_delays, mask, every, micros, both_stop))| {
+        // a delay at a point that is visited at every primitive call must be rare or short, or the program takes minutes
+        let frequent = mask & 0b0010_0011 != 0; // points 0, 1, 5: every safepoint
+        let every = if frequent && micros > 0 { every.max(17) } else { every };
+        let slow = with_delays == 1 && micros >= 200 && frequent;
+        ThreadCase {
             workers,
-            iters: if updater > 0 { iters.min(600) } else { iters },
+            iters: if updater > 0 || slow { iters.min(600) } else { iters },
             tick,
             feeds,
-            period: if updater > 0 { 0 } else { period },
+            period: if updater > 0 && !both_stop { 0 } else { period },
             join_order,
             defines,
             garbage,
             updater,
             churn,
             collect_before_join,
-        })
+            delay_mask: if with_delays == 1 { mask } else { 0 },
+            delay_every: every,
+            delay_micros: micros,
+            heap_msgs: false,
+            both_stop,
+        }
+    })
 }
 
 pub fn run(ctx: &Ctx, replay: Option<&str>, tag: &'static str, stress_only: bool, quick: u64, thorough: u64) -> i32 {
@@ -383,9 +438,9 @@ pub fn run(ctx: &Ctx, replay: Option<&str>, tag: &'static str, stress_only: bool
     }
     {
         let mut ws = Workers::new();
-        // the listed findings depend on the OS schedule: a replay is tried up to 12 times
+        // the listed findings depend on the OS schedule: a replay is tried 3 times
         replay_tier::<ThreadCase>(ctx, "threads", &mut |c| {
-            for _ in 0..12 {
+            for _ in 0..3 {
                 check(ctx, &mut ws, c, false, tag)?;
             }
             Ok(())
